@@ -389,6 +389,11 @@ def run_case(key, twin=False):
         res2 = dec.decide(ctx, pairs(Lv, Rv, ctx), assumptions=assume + [(a, 'ne', Poly()) for a in patoms])
         if res2.status == 'unsat':
             sig = 'pinv-collapse'
+        elif res2.status == 'unknown':
+            # the program contains the listed pattern but the solver could not decide whether a zero diagonal entry is the
+            # only cause: neither a new violation nor the known finding can be claimed
+            return inconclusive(f'program contains a diagonal pseudo-inverse next to its operand; side-condition query: {res2.reason}',
+                                prims=sorted(ctx.prims), **dec.stats())
     common = dict(prims=sorted(ctx.prims), **dec.stats())
     common.pop('obligations')
     return violation(f'reduce() changes the map of {show(e)} [{fam}]', model=res.model, signature=sig,
